@@ -58,6 +58,12 @@ func (s *state) Persistent() types.PersistentState {
 }
 
 func (s *state) getLog(index uint64) (*types.PooledBuffer, error) {
+	// Segment readers and the tail writer only know the MinIndex they were
+	// created with, so enforce the current logical start of the log here.
+	if first := s.firstIndex(); first == 0 || index < first {
+		return nil, ErrNotFound
+	}
+
 	// Check the tail writer first
 	if s.tail != nil {
 		raw, err := s.tail.GetLog(index)
